@@ -28,7 +28,11 @@ import (
 var obsFields = []string{"id", "a", "b", "n.x"}
 
 // observe reads the store through every access path and returns the canonical observation.
-func observe(k *sg.Case) string {
+func observe(k *sg.Case) string { return observeSome(k, nil, 0, nil) }
+
+// observeSome is observe for large stores: per field at most `limit` of the stored values are probed (drawn with rng),
+// plus the values of `focus` (documents the last call touched) and a value no document holds. limit = 0: all values.
+func observeSome(k *sg.Case, rng *lib.RNG, limit int, focus []types.Map) string {
 	all := k.Readback()
 	var out []string
 	out = append(out, all.Canon(sg.Op{Kind: "find"}))
@@ -76,6 +80,22 @@ func observe(k *sg.Case) string {
 			keys = append(keys, w)
 		}
 		sortStrings(keys)
+		if limit > 0 && len(keys) > limit {
+			keep := map[string]bool{lib.EncodeVal(types.NewInt(9)): true, lib.EncodeVal(types.NewInt(0)): true}
+			for _, d := range focus {
+				keep[lib.EncodeVal(d.Get(sg.S(f)))] = true
+			}
+			for i := 0; i < limit; i++ {
+				keep[keys[rng.Intn(len(keys))]] = true
+			}
+			var some []string
+			for _, w := range keys {
+				if keep[w] {
+					some = append(some, w)
+				}
+			}
+			keys = some
+		}
 		for _, w := range keys {
 			v := vals[w]
 			var cond types.Value = v
@@ -84,7 +104,9 @@ func observe(k *sg.Case) string {
 			}
 			o := sg.Op{Kind: "find", Filter: types.NewMap(sg.S(f), cond)}
 			r := k.Do(o)
-			out = append(out, o.Line()+" => "+r.Canon(o))
+			if limit == 0 { // sampled probes differ from call to call: they are checked (below, and against the reference) but not part of the observation
+				out = append(out, o.Line()+" => "+r.Canon(o))
+			}
 			if r.Kind != "docs" {
 				continue
 			}
@@ -121,6 +143,12 @@ func history(c *lib.Ctx, sc *lib.Script, fails *[]lib.OracleFail, rng *lib.RNG, 
 	g := &sg.Gen{R: rng, Depth: 2, Hit: c.Hit}
 	k := sg.NewCase(c, sc, fails, true)
 	k.Spell = rng.Fork()
+	// SIZE FAMILY (storegen/large.go): one history in ten (one in five at thorough) on 64–150 documents around a
+	// compound unique index whose hot first-level value carries 33–60 second-level keys.
+	if rng.Chance(1, c.Scale(10, 5)) {
+		large(c, k, g, rng)
+		return
+	}
 	prev := observe(k)
 	existing := func() (types.Map, bool) {
 		if len(k.Ref.Docs) == 0 {
@@ -265,6 +293,85 @@ func history(c *lib.Ctx, sc *lib.Script, fails *[]lib.OracleFail, rng *lib.RNG, 
 			}
 		}
 		prev = now
+	}
+}
+
+// large: a compound unique index over (a, b) – declared before the load, or built over the loaded documents (with a
+// violating pair planted late in id order it must be refused without a trace) –, documents that repeat the key of a
+// stored one under a fresh id (the 33rd, 34th … second-level key of the hot value among them), updates that give many
+// documents the same key (the batch stops at the first refused document), deletes of dozens of documents, further
+// index declarations over the large data. After every call: Find(nil) and finds by sampled values of every field
+// (through whatever index exists), compared with the reference store; after a refused single-document call the
+// observation must be the one before it.
+func large(c *lib.Ctx, k *sg.Case, g *sg.Gen, rng *lib.RNG) {
+	planted := rng.Chance(2, 3)
+	l := g.NewLarge(planted)
+	c.Hit("history:large-store")
+	uniq := sg.Op{Kind: "idx", Keys: []string{"a", "b"}, Unique: true}
+	switch rng.Intn(5) {
+	case 0:
+		uniq.Keys = []string{"a", "b", "n.x"}
+	case 1:
+		uniq.Filter = types.NewMap(sg.S("n.x"), types.NewMap(sg.S("$lte"), types.NewInt(5)))
+	}
+	before := rng.Bool()
+	step := func(o sg.Op, single bool, prev string, focus []types.Map) string {
+		res := k.Do(o)
+		now := observeSome(k, rng, 3, focus)
+		if res.Kind == "err" {
+			c.Hit("rejected:" + o.Kind + ":" + res.Err)
+			if single && now != prev {
+				k.Fail("rejected-call-changed-the-store", "`"+o.Line()+"` was rejected ("+res.Err+") but the observation changed")
+			}
+		}
+		return now
+	}
+	prev := observeSome(k, rng, 3, nil)
+	if before {
+		prev = step(uniq, true, prev, nil)
+		c.Hit("large:unique-index-before-load")
+	}
+	l.LoadInto(k)
+	prev = observeSome(k, rng, 3, nil)
+	c.Hit(fmt.Sprintf("large:documents-after-load:%d0s", len(k.Ref.Docs)/10))
+	if !before {
+		prev = step(uniq, true, prev, nil) // refused when the pair is planted
+		c.Hit("large:unique-index-over-loaded-data")
+	}
+	hots := l.Hots()
+	for s := 0; s < rng.Range(8, 14) && len(*k.Fails) == 0; s++ {
+		switch rng.Weighted([]int{6, 2, 3, 2, 2, 1, 2}) {
+		case 0: // a fresh document with the key of a stored hot one: around the 33rd second-level key, or anywhere
+			j := hots[rng.Intn(len(hots))]
+			if rng.Bool() && len(hots) > 36 {
+				j = hots[rng.Range(28, 36)]
+			}
+			d := l.Repeat(j)
+			prev = step(sg.Op{Kind: "ins", Docs: []sg.Map{d}}, true, prev, []types.Map{d})
+			c.Hit("large:insert-repeating-a-stored-key")
+		case 1:
+			d := l.Fresh()
+			prev = step(sg.Op{Kind: "ins", Docs: []sg.Map{d}}, true, prev, []types.Map{d})
+		case 2: // many documents, same new key part
+			prev = step(sg.Op{Kind: "upd", Filter: l.Filter(), Update: l.Update()}, false, prev, nil)
+		case 3: // one document takes the key of another hot one
+			i, j := hots[rng.Intn(len(hots))], hots[rng.Intn(len(hots))]
+			o := sg.Op{Kind: "upd", Filter: types.NewMap(sg.S("id"), l.IdOf(i)),
+				Update: types.NewMap(sg.S("$set"), types.NewMap(sg.S("b"), types.NewInt(j)))}
+			prev = step(o, true, prev, []types.Map{l.Doc(i), l.Doc(j)})
+			c.Hit("large:update-to-a-stored-key")
+		case 4:
+			prev = step(sg.Op{Kind: "del", Filter: l.Filter()}, false, prev, nil)
+		case 5:
+			prev = step(sg.Op{Kind: "unidx", Keys: uniq.Keys}, true, prev, nil)
+		default: // (re-)declared over the large data: the unique one again, or another compound index
+			o := uniq
+			if rng.Bool() {
+				o = l.Indexes()[0]
+			}
+			prev = step(o, true, prev, nil)
+			c.Hit("large:index-declared-over-large-data")
+		}
 	}
 }
 
